@@ -992,12 +992,12 @@ func TestC04(t *testing.T) {
 		// every notify type and every configuration attribute type with a few data lengths, as payload bodies (exact capacity
 		// against poisoned spare capacity): a validator for ONE type code that reads a fixed amount is reached with certainty
 		for v := 0; v < 65536 && c.Failures() <= 5; v++ {
-			for _, n := range []int{0, 1, 3, 16} {
+			for _, n := range []int{1, 3, 16} {
 				body := append([]byte{0, 0, byte(v >> 8), byte(v)}, pat(n, byte(v))...)
 				c04Sweep.Eval(c, c04In{Entry: "body:" + model.KNotify, B: body, Origin: "id-sweep"})
 			}
 			if v < 32768 {
-				for _, n := range []int{0, 1, 3, 16} {
+				for _, n := range []int{1, 16} {
 					body := append([]byte{1, 0, 0, 0, byte(v >> 8), byte(v), 0, byte(n)}, pat(n, byte(v))...)
 					c04Sweep.Eval(c, c04In{Entry: "body:" + model.KCP, B: body, Origin: "id-sweep"})
 				}
